@@ -53,7 +53,7 @@ use jsonrpsee_types::error::{
 	BATCHES_NOT_SUPPORTED_CODE, BATCHES_NOT_SUPPORTED_MSG, ErrorCode, reject_too_big_batch_request,
 };
 use jsonrpsee_types::{ErrorObject, Id};
-use soketto::handshake::http::is_upgrade_request;
+use crate::transport::ws::is_upgrade_request;
 #[cfg(jsonrpsee_verif)]
 use jsonrpsee_core::verif::net::{TcpListener, TcpStream, ToSocketAddrs};
 #[cfg(not(jsonrpsee_verif))]
